@@ -18,6 +18,7 @@ import (
 	"github.com/openGemini/openGemini/lib/logger"
 	"github.com/openGemini/openGemini/lib/util/lifted/influx/influxql"
 	"github.com/openGemini/openGemini/lib/util/lifted/influx/meta"
+	"github.com/openGemini/openGemini/lib/util/lifted/influx/query"
 	"github.com/openGemini/openGemini/lib/util/lifted/vm/protoparser/influx"
 	"github.com/savsgio/dictpool"
 	"go.uber.org/zap"
@@ -73,7 +74,6 @@ func main() {
 	b, idx = open(base+"/main", 2, 2, &seq)
 	seqd := uint64(1)
 	bd, del := open(base+"/del", 0, 2, &seqd)
-	_ = bd
 	idx.SetDeleteMergeSet(del)
 	must(del.LoadDeletedTSIDs())
 	count := func(cond influxql.Expr) int {
@@ -87,6 +87,9 @@ func main() {
 	for len(dropped) < nd {
 		dropped[fmt.Sprintf("h%05d", r.Intn(n))] = true
 	}
+	// the newest series is the last id of its merged tag->tsids rows; one more in the middle of a row
+	dropped[fmt.Sprintf("h%05d", n-1)] = true
+	dropped[fmt.Sprintf("h%05d", n/2)] = true
 	var dl []string
 	for h := range dropped {
 		dl = append(dl, h)
@@ -134,9 +137,91 @@ func main() {
 			lostZone += want - got
 		}
 	}
+	// the purge also discards the purged part of the deleted-ids table: after a restart nothing may bring a dropped series back
 	must(b.Close())
+	must(bd.Close())
+	b, idx = open(base+"/main", 2, 3, &seq)
+	bd, del = open(base+"/del", 0, 3, &seqd)
+	idx.SetDeleteMergeSet(del)
+	must(del.LoadDeletedTSIDs())
+	reappeared := []string{}
+	for _, h := range dl {
+		cond := &influxql.BinaryExpr{Op: influxql.EQ, LHS: &influxql.VarRef{Val: "host", Type: influxql.Tag}, RHS: &influxql.StringLiteral{Val: h}}
+		if count(cond) != 0 {
+			reappeared = append(reappeared, "host="+h)
+		}
+	}
+	for z := 0; z < 7; z++ {
+		cond := &influxql.BinaryExpr{Op: influxql.EQ, LHS: &influxql.VarRef{Val: "zone", Type: influxql.Tag}, RHS: &influxql.StringLiteral{Val: fmt.Sprintf("z%d", z)}}
+		want := 0
+		for i := 0; i < n; i++ {
+			if i%7 == z && !dropped[fmt.Sprintf("h%05d", i)] {
+				want++
+			}
+		}
+		if got := count(cond); got > want {
+			reappeared = append(reappeared, fmt.Sprintf("zone=z%d:+%d", z, got-want))
+		}
+	}
+	afterReopen := count(nil)
+	must(b.Close())
+	must(bd.Close())
 	os.RemoveAll(base)
-	gen.Emit(map[string]any{"purge": true, "series": n, "dropped": dl, "count_before": before, "count_after_drop": afterDrop,
+	leak := crossIndexLeak(base + "x")
+	gen.Emit(map[string]any{"purge": true, "cross_index_leak": leak, "series": n, "dropped": dl, "count_before": before, "count_after_drop": afterDrop,
 		"count_after_purge": afterPurge, "expected_after": n - len(dl), "key_no_longer_resolves": lostKey,
-		"not_found_by_own_tag_filter": lostTag, "missing_from_shared_tag_filters": lostZone})
+		"not_found_by_own_tag_filter": lostTag, "missing_from_shared_tag_filters": lostZone,
+		"count_after_reopen": afterReopen, "dropped_reappeared_after_reopen": reappeared})
+}
+
+// crossIndexLeak: two indexes whose series ids coincide (same logical clock, same sequence start - as two databases
+// created in the same second have). Series are dropped in A only. A select-path search on A followed by a listing-path
+// search on B on the same goroutine gets the same pooled search object; B must still list all of its series.
+func crossIndexLeak(base string) []string {
+	os.RemoveAll(base)
+	seqA, seqB, seqD := uint64(5000), uint64(5000), uint64(1)
+	ba, ia := open(base+"/a", 2, 7, &seqA)
+	bb, ib := open(base+"/b", 2, 7, &seqB)
+	bd, del := open(base+"/adel", 0, 7, &seqD)
+	ia.SetDeleteMergeSet(del)
+	must(del.LoadDeletedTSIDs())
+	const ns = 8
+	for _, b := range []*tsi.IndexBuilder{ba, bb} {
+		for i := 0; i < ns; i++ {
+			row := influx.Row{Name: "m_0000", Tags: influx.PointTags{{Key: "host", Value: fmt.Sprintf("h%d", i)}}}
+			row.UnmarshalIndexKeys(nil)
+			rows := []influx.Row{row}
+			d := &dictpool.Dict{}
+			d.Set("m_0000", &rows)
+			must(b.CreateIndexIfNotExists(d, false))
+		}
+		b.Flush()
+	}
+	all, err := ia.SearchSeriesByTableAndCond([]byte("m_0000"), nil, tsi.DefaultTR)
+	must(err)
+	must(del.WriteDeleteTsids(all[:ns/2])) // DROP SERIES of half of A's series
+	bad := []string{}
+	for k := 0; k < 30; k++ {
+		opt := &query.ProcessorOptions{StartTime: tsi.DefaultTR.Min, EndTime: tsi.DefaultTR.Max}
+		_, _, err := ia.SearchSeriesWithOpts(nil, []byte("m_0000"), opt, func(int64) error { return nil }, nil)
+		must(err)
+		got, err := ib.SearchSeriesByTableAndCond([]byte("m_0000"), nil, tsi.DefaultTR)
+		must(err)
+		if len(got) != ns && len(bad) < 5 {
+			bad = append(bad, fmt.Sprintf("round %d: index B lists %d of its %d series after a select on index A (which dropped %d)", k, len(got), ns, ns/2))
+		}
+		cond := &influxql.BinaryExpr{Op: influxql.EQ, LHS: &influxql.VarRef{Val: "host", Type: influxql.Tag}, RHS: &influxql.StringLiteral{Val: "h0"}}
+		_, _, err = ia.SearchSeriesWithOpts(nil, []byte("m_0000"), opt, func(int64) error { return nil }, nil)
+		must(err)
+		tv, err := ib.SearchTagValues([]byte("m_0000"), [][]byte{[]byte("host")}, cond)
+		must(err)
+		if (len(tv) != 1 || len(tv[0]) != 1) && len(bad) < 5 {
+			bad = append(bad, fmt.Sprintf("round %d: index B tag values of host where host='h0': %v", k, tv))
+		}
+	}
+	must(ba.Close())
+	must(bb.Close())
+	must(bd.Close())
+	os.RemoveAll(base)
+	return bad
 }
